@@ -914,7 +914,7 @@ def evaluate(ctx, runs, colors, use_fuzzy=True):
                 if got_rows > limit:
                     hit("cli-more-than-limit", "%d table rows, limit in force %d (%s path)" % (got_rows, limit, path))
                 if body != b"".join(exp_rows):
-                    if got_rows == len(answer) and in_rank_order(body, [(clip(docs[h["id"]].command, 48, 45), b"") for h in answer]):
+                    if got_rows == len(answer) and in_rank_order(body, [(docs[h["id"]].command[:20], b"") for h in answer]):  # whatever the column width: the start of each command
                         layout_diffs.append("%s: table rows are the engine's results in rank order but not byte for byte the rendering oracle's: printed %r expected %r" % (
                             what[:200], body[:300], b"".join(exp_rows)[:300]))
                         printed_ids = [h["id"] for h in answer]
